@@ -42,6 +42,9 @@ def enum (xs : List α) : List (Int × α) := (List.range xs.length).map (fun (k
 
 def deref [Inhabited α] (p : Option α) : α := p.getD default
 
+/-- `*S[i] = v` for a slice of pointers kept as a list of values (translator option ptrSlice) -/
+def setAt (xs : List α) (i : Int) (v : α) : List α := xs.set i.toNat v
+
 /-- error values: only the kind is kept (the Go error type, or "error" for fmt.Errorf /
 errors.New); message texts are not modelled, so a reworded message changes nothing here -/
 structure Err where
